@@ -95,6 +95,9 @@ package archiver
 //@   ensures [as-started] @C03 clientsAsStarted() // C03: under any supported configuration (proxy or direct): which clients exist after start-up
 //@   attr assert-all NewWARCWritingHTTPClient
 //@   assert Build(*): [default-chain] @C02 arg0 != nil && len(arg0.hooks) == 2 && arg0.hooks[0] == cloudflare.ChallengePageHook && arg0.hooks[1] == warcdiscardstatus.WARCDiscardStatusHook // C02: discard hook chain built from cloudflare + warc-discard-status hooks
+//@   local chain warc.DiscardHook = nil
+//@   after Build(*): chain = opResult
+//@   assert NewWARCWritingHTTPClient(*): [built-chain] @C02 arg0.DiscardHook == chain // C02: discard hook chain built from cloudflare + warc-discard-status hooks (the hook every client gets is the chain that was built, not some other function)
 //@   assert NewWARCWritingHTTPClient(*): [discard-hook] @C02 arg0.DiscardHook != nil // C02: discard hook chain built from cloudflare + warc-discard-status hooks (every WARC-writing client is created with it)
 
 // ---------------------------------------------------------------------------------------
